@@ -119,7 +119,8 @@ func (a *Agg) Add(q Q, o Outcome) {
 	}
 	_, ranges := observe(o)
 	for _, r := range ranges {
-		if r.IsPos {
+		if r.IsPos || r.R.Filename == sentinelRange.Filename {
+			// positions are checked as parts of ranges; the sentinel is a range the schema itself supplied
 			continue
 		}
 		rp := r.Path
@@ -478,10 +479,7 @@ func runShards(states []StateSpec, shards int, outPrefix string, so sessOpts) []
 					}
 					env = newEnv(st.World, "p1")
 					cur = st.World
-					tw.Emit(Event{"ev": "Init", "p": "p1", "world": st.World.Name, "files": sortedKeys(st.World.Docs)})
-					for _, f := range sortedKeys(st.World.Docs) {
-						tw.Emit(Event{"ev": "Load", "p": "p1", "f": f, "lines": Lines([]byte(st.World.Docs[f])), "parsed": true, "len": len(st.World.Docs[f]), "note": "init"})
-					}
+					emitInit(tw, st.World)
 				}
 				runState(tw, ws[s], env, "p1", st, so, i)
 			}
@@ -489,6 +487,20 @@ func runShards(states []StateSpec, shards int, outPrefix string, so sessOpts) []
 	}
 	wg.Wait()
 	return files
+}
+
+// emitInit: the Init event and one Load per file of every path of the world
+func emitInit(tw *traceWriter, w *World) {
+	tw.Emit(Event{"ev": "Init", "p": "p1", "world": w.Name, "files": sortedKeys(w.Docs)})
+	load := func(pk string, pw *World) {
+		for _, f := range sortedKeys(pw.Docs) {
+			tw.Emit(Event{"ev": "Load", "p": pk, "f": f, "lines": Lines([]byte(pw.Docs[f])), "parsed": true, "len": len(pw.Docs[f]), "note": "init"})
+		}
+	}
+	load("p1", w)
+	for _, pk := range sortedPeerKeys(w) {
+		load(pk, w.Peers[pk])
+	}
 }
 
 func sortedKeys(m map[string]string) []string {
